@@ -64,6 +64,10 @@ def gen_layout(rng):
     else:
         ifm = ("stub", rng.choice([1.0, 1.2, 1.38]) + rng.random() * 0.3, rng.choice([2.5, 5.0, 5.5, 8.0]) + rng.random())
     lay = dict(breaks=breaks, nbins=nb, method=method, ifmr=ifm, form=form)
+    if rng.random() < 0.5:
+        # the IMF object handed to MassBins is independent of the binning breaks (documented: the IMF's breaks are not used to set up the bins):
+        # another number of components over the same range
+        lay["imf_comps"] = rng.choice([k_ for k_ in (1, 2, 3, 4, 5) if k_ != nseg])
     if rng.random() < 0.2 and form in ("list", "dict_list"):
         # put a break exactly on an IFMR bound (minimum BH mass / maximum WD mass)
         io = real_ifmr(ifm[1]) if ifm[0] == "real" else stub_ifmr(ifm[1], ifm[2])
@@ -84,7 +88,13 @@ def build(lay):
     from ssptools.masses import MassBins, PowerLawIMF
     ifm = real_ifmr(lay["ifmr"][1]) if lay["ifmr"][0] == "real" else stub_ifmr(lay["ifmr"][1], lay["ifmr"][2])
     b = lay["breaks"]
-    imf = PowerLawIMF(b, [-1.3] * (len(b) - 1), N0=1e5)
+    nc = lay.get("imf_comps")
+    if nc:
+        ib = [b[0] * (b[-1] / b[0]) ** (k_ / nc) for k_ in range(nc + 1)]
+        ib[0], ib[-1] = b[0], b[-1]
+        imf = PowerLawIMF(ib, [-1.3] * nc, N0=1e5)
+    else:
+        imf = PowerLawIMF(b, [-1.3] * (len(b) - 1), N0=1e5)
     return MassBins(b, lay["nbins"], imf, ifm, binning_method=lay["method"]), ifm
 
 
